@@ -1316,9 +1316,14 @@ impl ASN1Value {
                 if matches![**value, ASN1Value::ElsewhereDeclaredValue { .. }] =>
             {
                 if let ASN1Value::ElsewhereDeclaredValue { identifier, .. } = &**value {
+                    // prefer the governing type: another ENUMERATED may share the enumeral
                     if let Some((_, tld)) = tlds
                         .iter()
-                        .find(|(_, tld)| tld.has_enum_value(None, identifier))
+                        .find(|(_, tld)| tld.has_enum_value(type_name, identifier))
+                        .or_else(|| {
+                            tlds.iter()
+                                .find(|(_, tld)| tld.has_enum_value(None, identifier))
+                        })
                     {
                         **value = ASN1Value::EnumeratedValue {
                             enumerated: tld.name().clone(),
@@ -1329,9 +1334,14 @@ impl ASN1Value {
                 Ok(())
             }
             (ASN1Type::Enumerated(_), ASN1Value::ElsewhereDeclaredValue { identifier, .. }) => {
+                // prefer the governing type: another ENUMERATED may share the enumeral
                 if let Some((_, tld)) = tlds
                     .iter()
-                    .find(|(_, tld)| tld.has_enum_value(None, identifier))
+                    .find(|(_, tld)| tld.has_enum_value(type_name, identifier))
+                    .or_else(|| {
+                        tlds.iter()
+                            .find(|(_, tld)| tld.has_enum_value(None, identifier))
+                    })
                 {
                     *self = ASN1Value::EnumeratedValue {
                         enumerated: tld.name().clone(),
